@@ -24,7 +24,7 @@ func init() {
 }
 
 func runC03(r *core.Run) {
-	r.Rule("(a) sequential histories minting every quote in every state (unpaid, paid, issued, re-mint with other outputs, bad outputs then corrected request, internal settlement, restarts) judged per quote: #issuances <= #payments, none before payment, sum <= amount; (b) NUT-20 tamper matrix on locked quotes (each must fail and leave the quote usable for the valid request); (c) controlled-scheduler enumeration, up to a preemption bound (quick 2, thorough 5), of the DB/LN-call interleavings of mint(O1)||mint(O2), mint||late 'invoice settled' notification, mint||poll, internal-settlement||mint on one quote, each followed by a further mint attempt; thorough adds sampled three-way schedules, porcupine stress and -race. Non-trivial = sequential operations on a quote that was paid, tamper cases, and schedules in which both threads took a step before the other finished")
+	r.Rule("(a) sequential histories minting every quote in every state (unpaid, paid, issued, re-mint with other outputs, bad outputs then corrected request, internal settlement, restarts) judged per quote: #issuances <= #payments, none before payment, sum <= amount; (b) NUT-20 tamper matrix on locked quotes (each must fail and leave the quote usable for the valid request); (c) controlled-scheduler enumeration, up to a preemption bound (quick 2, thorough 5), of the DB/LN-call interleavings of mint(O1)||mint(O2), mint||late 'invoice settled' notification, mint||poll, internal-settlement||mint on one quote, each followed by a further mint attempt; thorough adds sampled three-way schedules, porcupine stress and -race. every other sequential history runs on a mint that offers multi-path melts (a melt quote that would settle an own quote for less is a violation), and one quote per history has a one-second invoice that is paid in time and polled only after it lapsed (must be PAID and mintable once); every other stress history goes through the HTTP router; Non-trivial = sequential operations on a quote that was paid, tamper cases, and schedules in which both threads took a step before the other finished")
 	r.Assume("payments of a quote = Lightning settlement of its invoice (at most one) + internal settlements by melts; DB/LN-call interleavings are the observable ones (DESIGN 1.1)")
 	if os.Getenv("VERIF_RACE_CHILD") != "" {
 		c03Stress(r) // the -race child repeats the concurrent workload only
